@@ -130,7 +130,18 @@ fn chain_spec() -> BoxedStrategy<ChainSpec> {
 		.prop_map(
 			|((three_level, keys, kids, at, client_purpose, root_path_len, inter_path_len, (nc_on_root, four_level)), (domain, v6, net, prefix, host_bits, ca_ku, leaf_extra_ekus, leaf_eku_empty, dns_dot, webpki_only_ku, (time_nanos, time_offset, no_nc)), violation)| {
 				let width = if v6 { 16 } else { 4 };
-				let prefix = if v6 { prefix } else { (prefix - 1) % 32 + 1 };
+				let mut net = net;
+				let mut prefix = if v6 { prefix } else { (prefix - 1) % 32 + 1 };
+				// a share of the IPv6 subnets lies inside ::ffff:0:0/96 (IPv4-mapped), ::/96 or 64:ff9b::/96
+				if v6 && host_bits[0] % 4 == 0 {
+					let head: [u8; 12] = match host_bits[1] % 3 {
+						0 => [0, 0, 0, 0, 0, 0, 0, 0, 0, 0, 0xff, 0xff],
+						1 => [0; 12],
+						_ => [0, 0x64, 0xff, 0x9b, 0, 0, 0, 0, 0, 0, 0, 0],
+					};
+					net[..12].copy_from_slice(&head);
+					prefix = 96 + (prefix - 1) % 32 + 1;
+				}
 				let four_level = four_level || matches!(violation, Some(Violation::PathLenIntermediate));
 				let three_level = three_level || four_level || matches!(violation, Some(Violation::PathLen) | Some(Violation::TimeBefore(Which::Intermediate)) | Some(Violation::TimeAfter(Which::Intermediate)));
 				ChainSpec {
